@@ -169,6 +169,11 @@ func init() {
 			return "", fmt.Errorf("only %d types with a Process method found under the translation packages (expected the planner families)", nProcess)
 		}
 		sort.Strings(out)
+		// which of the types that write to themselves are constructed anywhere in the reader (composite literal or new(T))
+		uncon, err := swUnconstructed(out)
+		if err != nil {
+			return "", err
+		}
 		s := "namespace Qryn.Gen\n/-- fields of a planner object written by its own `Process` (or by a method of the same receiver reachable from it): \"pkg.Type.method:field\" -/\ndef plannerSelfWrites : List String :=\n  ["
 		for i, v := range out {
 			if i > 0 {
@@ -176,7 +181,15 @@ func init() {
 			}
 			s += leanStr(v)
 		}
-		s += "]\n/-- number of types with a `Process` method that were scanned -/\ndef plannerProcessTypes : Nat := " + fmt.Sprint(nProcess) + "\nend Qryn.Gen\n"
+		s += "]\n/-- number of types with a `Process` method that were scanned -/\ndef plannerProcessTypes : Nat := " + fmt.Sprint(nProcess) + "\n"
+		s += "/-- the types of `plannerSelfWrites` of which no object is constructed anywhere under reader/ (no composite literal, no `new`) -/\ndef plannerSelfWriteUnconstructed : List String :=\n  ["
+		for i, v := range uncon {
+			if i > 0 {
+				s += ",\n   "
+			}
+			s += leanStr(v)
+		}
+		s += "]\nend Qryn.Gen\n"
 		return s, nil
 	})
 }
@@ -221,4 +234,93 @@ func swRootField(e ast.Expr, recv string) (string, bool) {
 			return "", false
 		}
 	}
+}
+
+// swUnconstructed: of the types named in the entries ("pkg.Type.method:field"), those for which no non-test file under
+// reader/ holds a composite literal `T{…}` / `&T{…}` / `pkgname.T{…}` or `new(T)`.
+func swUnconstructed(entries []string) ([]string, error) {
+	type key struct{ pkg, typ string }
+	want := map[key]bool{}
+	for _, e := range entries {
+		colon := strings.LastIndex(e, ":")
+		if colon < 0 {
+			return nil, fmt.Errorf("entry %q", e)
+		}
+		parts := strings.Split(e[:colon], ".")
+		if len(parts) < 3 {
+			return nil, fmt.Errorf("entry %q", e)
+		}
+		want[key{strings.Join(parts[:len(parts)-2], "."), parts[len(parts)-2]}] = true
+	}
+	found := map[key]bool{}
+	root := filepath.Join(repo, "reader")
+	err := filepath.Walk(root, func(path string, info os.FileInfo, err error) error {
+		if err != nil {
+			return err
+		}
+		if info.IsDir() || !strings.HasSuffix(path, ".go") || strings.HasSuffix(path, "_test.go") {
+			return nil
+		}
+		fset := token.NewFileSet()
+		f, err := parser.ParseFile(fset, path, nil, 0)
+		if err != nil {
+			return fmt.Errorf("%s: %v", path, err)
+		}
+		rel, _ := filepath.Rel(repo, filepath.Dir(path))
+		rel = filepath.ToSlash(rel)
+		// import name -> package path (relative to the module) for selector literals
+		imports := map[string]string{}
+		for _, im := range f.Imports {
+			p := strings.Trim(im.Path.Value, "\"")
+			const mod = "github.com/metrico/qryn/"
+			if !strings.HasPrefix(p, mod) {
+				continue
+			}
+			p = strings.TrimPrefix(p, mod)
+			name := p[strings.LastIndex(p, "/")+1:]
+			if im.Name != nil {
+				name = im.Name.Name
+			}
+			imports[name] = p
+		}
+		mark := func(t ast.Expr) {
+			switch x := t.(type) {
+			case *ast.Ident:
+				if want[key{rel, x.Name}] {
+					found[key{rel, x.Name}] = true
+				}
+			case *ast.SelectorExpr:
+				if id, ok := x.X.(*ast.Ident); ok {
+					if p, ok := imports[id.Name]; ok && want[key{p, x.Sel.Name}] {
+						found[key{p, x.Sel.Name}] = true
+					}
+				}
+			}
+		}
+		ast.Inspect(f, func(n ast.Node) bool {
+			switch x := n.(type) {
+			case *ast.CompositeLit:
+				if x.Type != nil {
+					mark(x.Type)
+				}
+			case *ast.CallExpr:
+				if id, ok := x.Fun.(*ast.Ident); ok && id.Name == "new" && len(x.Args) == 1 {
+					mark(x.Args[0])
+				}
+			}
+			return true
+		})
+		return nil
+	})
+	if err != nil {
+		return nil, err
+	}
+	var out []string
+	for k := range want {
+		if !found[k] {
+			out = append(out, k.pkg+"."+k.typ)
+		}
+	}
+	sort.Strings(out)
+	return out, nil
 }
